@@ -19,3 +19,9 @@ package metadatapart
 //@ loop 0 invariant objectSize > 0 ==> forall k :: 0 <= k && k < i ==>
 //@     normalized[k].Start == nil || normalized[k].End == nil || specNonEmptyWithin(normalized[k], objectSize)
 //@ loop 0 invariant forall k :: 0 <= k && k < i ==> specSameSlice(normalized[k], ranges[k], objectSize)
+
+// Same-storage copies: the copy-source conditions follow the S3 rule (the specification shared with the
+// bucket-routing middleware's cross-storage copies, property C24).
+//@ func evaluateCopySourceConditions
+//@ mode nosafety
+//@ ensures[C24:copy-conditions-same-storage] object != nil ==> (err != nil) == specCopyConditionsFail(conditions, object.ETag, object.LastModified)
